@@ -71,6 +71,18 @@ class AttrTypes:
                     elif isinstance(n, ast.AnnAssign) and n.value is not None:
                         t = self.type_of_expr(fi, n.value, params, local_types, res)
                         self._bind(n.target, t, local_types, res, fi)
+                    elif isinstance(n, ast.AugAssign) and isinstance(n.op, ast.Add) and _self_attr(n.target, fi) and \
+                            n.target.attr in aliases and isinstance(n.value, (ast.List, ast.Tuple)) and n.value.elts and \
+                            all(_self_attr(e, fi) for e in n.value.elts):
+                        # self.ts += [self.c, self.d]: the alias list grows
+                        aliases[n.target.attr].update(e.attr for e in n.value.elts)
+                    elif isinstance(n, ast.Call) and isinstance(n.func, ast.Attribute) and n.func.attr in ("append", "extend") \
+                            and _self_attr(n.func.value, fi) and n.func.value.attr in aliases and len(n.args) == 1 and (
+                                (n.func.attr == "append" and _self_attr(n.args[0], fi)) or
+                                (n.func.attr == "extend" and isinstance(n.args[0], (ast.List, ast.Tuple)) and n.args[0].elts
+                                 and all(_self_attr(e, fi) for e in n.args[0].elts))):
+                        aliases[n.func.value.attr].update(
+                            [n.args[0].attr] if n.func.attr == "append" else [e.attr for e in n.args[0].elts])
                     elif isinstance(n, ast.Call) and isinstance(n.func, ast.Attribute) and n.func.attr == "append":
                         # lst.append(e) on a local or self list
                         et = self.type_of_expr(fi, n.args[0], params, local_types, res) if n.args else {("other",)}
